@@ -88,6 +88,10 @@ def run(index: RepoIndex, rep) -> None:
              'same triple in every cell and in every instance', floor=16)
     from .c15 import type_sets
     type_sets(index, rep, 'C16.R8')
+    rep.rule('C16.R9', 'the collections the compact encoding numbers hold each type / colour '
+             'once (a repeated colour takes an index and leaves a gap) (C01.R3)', floor=8)
+    from .c01 import space_sets
+    space_sets(index, rep, 'C16.R9')
     # ---- R1
     eq = index.func(GO, 'GridObject.__eq__')
     me, other = [a.arg for a in eq.node.args.args]
